@@ -367,7 +367,7 @@ MUTANTS += [
     dict(id="c10_revert_fix_d9", props=["C10"], edits=[
         (VX, "        stats = self._CACHE_STATS.setdefault(self.uid, [0, 0, 0, 0])\n", "        stats = self._CACHE_STATS[self.uid]\n")]),
     dict(id="c10_lazy_only_at_start", props=["C10"], edits=[
-        (NP, "        self.lazywrites.append(_LazySave(obj))\n", "        if len(self.memo) > 300:\n            return self.realsave(obj)\n        self.lazywrites.append(_LazySave(obj))\n")]),
+        (NP, "        if self._eager:\n            self.realsave(obj)\n", "        if self._eager or len(self.memo) > 300:\n            self.realsave(obj)\n")]),
     dict(id="c10_getstate_drops_universes", props=["C10"], edits=[
         (BS, "    @property\n    def uid(self) -> int:", "    def __getstate__(self):\n        d = dict(self.__dict__)\n        d['_universes'] = list(d.get('_universes', []))[:1]\n        return d\n\n    @property\n    def uid(self) -> int:")]),
     dict(id="c10_tail_requeue_lost", props=["C10"], edits=[
@@ -422,4 +422,14 @@ MUTANTS += [
         (SG, "    def __call__(*args, **kwargs):\n        cls, args = args[0], args[1:]\n        if cls not in cls._TrueSingleton", "    def __call__(cls, *args, **kwargs):\n        if cls not in cls._TrueSingleton")]),
     dict(id="c17_revert_fix_d22", props=["C17"], edits=[
         (SG, "        def __call__(*args, **kwargs):\n            cls, args = args[0], args[1:]\n", "        def __call__(cls, *args, **kwargs):\n")]),
+]
+
+MUTANTS += [
+    # ---------------- round 5 -----------------------------------------------
+    dict(id="c10_revert_fix_d23", props=["C10"], edits=[
+        (NP, "        if isinstance(obj, (type, types.FunctionType)):\n", "        if False:\n")]),
+    dict(id="c10_eager_only_for_classes", props=["C10"], edits=[
+        (NP, "        if isinstance(obj, (type, types.FunctionType)):\n", "        if isinstance(obj, type) and obj.__module__ == '__main__':\n")]),
+    dict(id="c14_revert_fix_d24", props=["C14"], edits=[
+        (PU, " and hasattr(vertex, a)]", "]")]),
 ]
